@@ -127,18 +127,24 @@ def G(st, g):
 
 def subset(a, b):
     x = z3.Int("ss!x")
-    return forall([x], z3.Implies(a[x], b[x]), patterns=[a[x]])
+    return forall([x], z3.Implies(a[x], b[x]), patterns=[a[x], b[x]])
 
 
 def world():
     v, j, o = z3.Ints("w!v w!j w!o")
     return [
-        AX("uses-are-objects", forall([v, j], z3.Implies(z3.And(j >= 0, j < NUSES(v)), USES(v)[j] != 0), patterns=[USES(v)[j]])),
+        AX("uses-are-objects", forall([v, j], z3.Implies(z3.And(j >= 0, j < NUSES(v)), USES(v)[j] > 0), patterns=[USES(v)[j]])),
         AX("use-counts-nonneg", forall([v], NUSES(v) >= 0, patterns=[NUSES(v)])),
-        AX("walk-starts-at-the-op-itself", forall([o], z3.And(NWALK(o) >= 1, WALK(o)[0] == o), patterns=[NWALK(o)])),
+        AX("walk-starts-at-the-op-itself", forall([o], z3.Implies(ISOP(o), z3.And(NWALK(o) >= 1, WALK(o)[0] == o)), patterns=[NWALK(o)])),
         AX("walk-yields-objects", forall([o, j], z3.Implies(z3.And(j >= 0, j < NWALK(o)), WALK(o)[j] > 0), patterns=[WALK(o)[j]])),
         AX("sentinel-is-not-an-op", z3.And(MISSING > 0, z3.Not(ISOP(MISSING)))),
     ]
+
+
+def results_ok(st):
+    o, j = z3.Ints("ro!o ro!j")
+    return [AX("results-are-objects", forall([o, j], z3.Implies(z3.And(j >= 0, j < st.seq_len("results", o)), st.seq_el("results", o, j) > 0))),
+            AX("result-counts-nonneg", forall([o], st.seq_len("results", o) >= 0))]
 
 
 def flag(st, rw):
@@ -165,6 +171,24 @@ def acted_iff(old, st, rw):
 
 def ret(v, st):
     return [Res("val", v, st)]
+
+
+def all_in(ops, log):
+    """Every operation of `ops` (a single op, a tuple display or a symbolic sequence) is in the set `log`."""
+    if isinstance(ops, VRef):
+        return log[ops.z]
+    if isinstance(ops, VTuple):
+        return z3.And(*[log[z_int(o)] for o in ops.items]) if ops.items else z3.BoolVal(True)
+    j = z3.Int("ai!j")
+    return forall([j], z3.Implies(z3.And(j >= 0, j < ops.n), log[ops.arr[j]]))
+
+
+def count_of(ops):
+    if isinstance(ops, VRef):
+        return z3.IntVal(1)
+    if isinstance(ops, VTuple):
+        return z3.IntVal(len(ops.items))
+    return ops.n
 
 
 # ------------------------------------------------------------------ trusted IR-mutating callees (C01 covers their IR effects)
@@ -221,6 +245,7 @@ M_RAUW = Mutator(CORE, "SSAValue.replace_all_uses_with", when=lambda old, a: NUS
 
 
 # ------------------------------------------------------------------ (b) listener dispatch
+LOG = {"insertion": "ins", "removal": "rem", "modification": "mod", "replacement": "rep"}
 HANDLER_FIELD = {"insertion": "operation_insertion_handler", "removal": "operation_removal_handler",
                  "modification": "operation_modification_handler", "replacement": "operation_replacement_handler"}
 LOG = {"insertion": "ins", "removal": "rem", "modification": "mod", "replacement": "rep"}
@@ -237,10 +262,10 @@ class Dispatch(Spec):
     """handle_operation_<kind>(op): every registered callback is invoked on op."""
 
     prop = PROP
-    ghost_modifies = ["CALLED", "ins", "rem", "mod", "rep"]
 
     def __init__(self, kind):
         self.kind = kind
+        self.ghost_modifies = ["CALLED", LOG[kind]]
         self.file = BU if kind == "insertion" else PR
         self.qualname = ("BuilderListener" if kind == "insertion" else "PatternRewriterListener") + f".handle_operation_{kind}"
         var = "callback" if kind == "insertion" else "handler"
@@ -297,6 +322,7 @@ class Extend(Spec):
 
     prop = PROP
     modifies = ["list#len", "list#el"]
+    _is_prl = True
 
     def __init__(self, cls):
         self.cls = cls
@@ -358,6 +384,8 @@ def _isinstance_hook(table):
         name = cls.text if isinstance(cls, VGlobal) else None
         if name in table and isinstance(v, VRef):
             return lift_bool(table[name](v.z))
+        if name == "Operation" and isinstance(v, (VSeq, VTuple)):
+            return False  # a sequence of operations is not an Operation
         return None
 
     return isinst
@@ -402,6 +430,10 @@ def b_parent_op(ex, st, args, kw):
     return ret(VRef(PARENTOP(args[0].z), "Operation"), st)
 
 
+class _Lazy:
+    pass
+
+
 class RewriterMethod(Spec):
     prop, file = PROP, PR
     ghost_modifies = ["mut", "ins", "rem", "mod", "rep"]
@@ -418,6 +450,13 @@ class RewriterMethod(Spec):
             "block.insert_arg": M_INSERT_ARG, "arg.block.erase_arg": M_ERASE_ARG, "from_value.erase": M_VALUE_ERASE,
             "from_value.replace_all_uses_with": M_RAUW, "InsertPoint.before": Builtin(b_insert_point), ".parent_op": Builtin(b_parent_op),
         }
+        if method == "insert":
+            self.calls["super().insert"] = BUILDER_INSERT
+        if method in ("erase_block_argument", "replace"):
+            self.calls["self.replace_all_uses_with"] = RewriterMethod("replace_all_uses_with")
+        if method == "replace":
+            self.calls["self.insert"] = RewriterMethod("insert")
+            self.calls["self.erase"] = RewriterMethod("erase")
         for k, v in kw.items():
             setattr(self, k, v)
 
@@ -475,16 +514,20 @@ class RewriterMethod(Spec):
         return a
 
     def pre(self, st, a):
-        out = world() + [A("rewriter-object", a["self"].z > 0)]
+        rw = a["self"].z
+        lists = [st.sel(f, rw) for f in HANDLER_FIELD.values()]
+        out = world() + [A("rewriter-object", rw > 0),
+                         A("handler-lists-are-objects", z3.And(*[z3.And(l > 0, st.list_len(l) >= 0) for l in lists]))]
         for k, v in a.items():
             if isinstance(v, VRef) and k in ("op", "from_value", "val", "block", "arg", "region"):
                 out.append(A(f"{k}-not-none", v.z > 0))
             if isinstance(v, VSeq):
                 out.append(A(f"{k}-length", v.n >= 0))
-        if self.method == "insert" and not self._single:
+        if self.method == "insert" and isinstance(a["op"], VSeq):
             j = z3.Int("p!j")
-            out.append(A("ops-are-operations", forall([j], z3.Implies(z3.And(j >= 0, j < a["op"].n), z3.And(a["op"].arr[j] > 0, ISOP(a["op"].arr[j]))))))
-            out.append(A("a-sequence-is-not-an-operation", z3.BoolVal(True)))
+            out.append(A("ops-are-operations", forall([j], z3.Implies(z3.And(j >= 0, j < a["op"].n), a["op"].arr[j] > 0))))
+        if self.method == "insert" and isinstance(a["op"], VRef):
+            out.append(A("op-is-an-operation", ISOP(a["op"].z)))
         return out
 
     def inv(self, n, entry, st, a, lv):
@@ -494,6 +537,7 @@ class RewriterMethod(Spec):
             mo = lv["iter"]
             return [A("modified-ops-so-far-reported", forall([j], z3.Implies(z3.And(j >= 0, j < lv["k"]), G(st, "mod")[mo.arr[j]]))),
                     A("logs-grow", logs_monotone(entry, st)), A("only-mod-log-changes", logs_unchanged(entry, st, ("ins", "rem", "rep"))),
+                    A("nothing-reported-before-the-first-iteration", z3.Or(lv["k"] > 0, G(st, "mod") == G(entry, "mod"))),
                     A("flag-kept", flag(st, rw) == flag(entry, rw)), A("mut-kept", G(st, "mut") == G(entry, "mut"))]
         return None
 
@@ -509,7 +553,7 @@ class RewriterMethod(Spec):
         if m == "notify_op_modified":
             out.append(C("modification-reported", G(st, "mod")[a["op"].z]))
         if m == "replace_all_uses_with":
-            f, t = a["from_value"].z, a["to_value"].z
+            f, t = a["from_value"].z, z_int(a["to_value"])
             j = z3.Int("r!j")
             out.append(C("every-user-of-the-replaced-value-is-reported-as-modified",
                          z3.Implies(f != t, forall([j], z3.Implies(z3.And(j >= 0, j < NUSES(f)), G(st, "mod")[old.sel("operation", USES(f)[j])])))))
@@ -520,11 +564,7 @@ class RewriterMethod(Spec):
             out.append(C("op-holding-a-retyped-block-argument-is-reported-as-modified",
                          z3.Implies(z3.And(ISARG(v), PARENTOP(old.sel("block", v)) != 0), G(st, "mod")[PARENTOP(old.sel("block", v))])))
         if m == "insert":
-            if self._single:
-                out.append(C("insertion-reported", G(st, "ins")[a["op"].z]))
-            else:
-                j = z3.Int("r!j")
-                out.append(C("insertion-reported", forall([j], z3.Implies(z3.And(j >= 0, j < a["op"].n), G(st, "ins")[a["op"].arr[j]]))))
+            out.append(C("insertion-reported", all_in(a["op"], G(st, "ins"))))
         return out
 
     def post_exc(self, old, st, a, exc):
@@ -534,9 +574,772 @@ class RewriterMethod(Spec):
                     C("listeners-are-only-notified-together-with-the-action-flag", z3.Or(flag(st, rw), logs_unchanged(old, st)))]
         return None
 
-    # ---- callee view -----------------------------------------------------------
+    # ---- callee view: ghosts havocked (ghost_modifies), constrained by post -----------------------------------------------
+    def result_value(self, st, a):
+        if self.method == "insert":
+            return a["op"]
+        if self.method == "replace_value_with_new_type":
+            return VRef(st.fresh_int("newval"), "SSAValue")
+        if self.method == "insert_block_argument":
+            return VRef(st.fresh_int("newarg"), "BlockArgument")
+        if self.method == "move_region_contents_to_new_regions":
+            return VRef(st.fresh_int("newregion"), "Region")
+        return None
+
+    def exc_cases(self, st, a):
+        if self.method == "replace_all_uses_with":
+            se = a["safe_erase"]
+            sez = z3.BoolVal(se) if isinstance(se, bool) else se.z
+            return [("ValueError", z3.And(a["from_value"].z != z_int(a["to_value"]), z_int(a["to_value"]) == 0, sez, NUSES(a["from_value"].z) > 0))]
+        if self.method == "insert":
+            return [("ValueError", z3.And(count_of(a["op"]) > 0, st.fresh_bool("implicit-builder-active")))]
+        return []
+
+
+
+def G0(name):
+    """Ghost value at function entry (ghost_setup names them <name>0)."""
+    return z3.Const(name + "0", GHOSTS[name])
+
+
+class ReplaceSpec(RewriterMethod):
+    """PatternRewriter.replace(op, new_ops, new_results, safe_erase)."""
+
+    def __init__(self):
+        RewriterMethod.__init__(self, "replace")
+
+    def setup(self, st, inst):
+        ghost_setup(st)
+        self._single, self._given = inst["single"], inst["given"]
+        a = {"self": VRef(st.declare_input("self", z3.Int("self")), "PatternRewriter"),
+             "op": VRef(st.declare_input("op", z3.Int("op")), "Operation"),
+             "safe_erase": VBool(st.declare_input("safe_erase", z3.Bool("safe_erase")))}
+        if self._single:
+            a["new_ops"] = VRef(st.declare_input("new_op", z3.Int("new_op")), "Operation")
+        else:
+            a["new_ops"] = VSeq(z3.Array("new_ops", I, I), st.declare_input("n_new_ops", z3.Int("n_new_ops")), "ref", "Operation")
+        a["new_results"] = VSeq(z3.Array("new_results", I, I), st.declare_input("n_new_results", z3.Int("n_new_results")), "ref", "SSAValue") if self._given else None
+        return a
+
+    def pre(self, st, a):
+        out = RewriterMethod.pre(self, st, a) + results_ok(st)
+        j = z3.Int("p!j")
+        if isinstance(a["new_ops"], VRef):
+            out.append(A("new-op-is-an-operation", z3.And(a["new_ops"].z > 0, ISOP(a["new_ops"].z))))
+        elif isinstance(a["new_ops"], VSeq):
+            out.append(A("new-ops-are-operations", forall([j], z3.Implies(z3.And(j >= 0, j < a["new_ops"].n), a["new_ops"].arr[j] > 0))))
+        return out
+
+    def exc_cases(self, st, a):
+        return [("ValueError", st.fresh_bool("replace-raises"))]
+
+    def _carried(self, st, a):
+        rw, op = a["self"].z, a["op"].z
+        return [A("action-flag-set", flag(st, rw)), A("insertions-reported", all_in(a["new_ops"], G(st, "ins"))),
+                A("log-only-grows", z3.And(*[subset(G0(n), G(st, n)) for n in ("ins", "rem", "mod", "rep")]))]
+
+    def inv(self, n, entry, st, a, lv):
+        out = self._carried(st, a)
+        # the replacement has been reported before the uses are rewritten (loop 0) and stays reported
+        out.append(A("replacement-reported", G(st, "rep")[a["op"].z]))
+        return out
+
+    def post(self, old, st, a, res):
+        rw, op = a["self"].z, a["op"].z
+        return list(acted_iff(old, st, rw)) + [
+            C("action-flag-set", flag(st, rw)),
+            C("replacement-reported", G(st, "rep")[op]),
+            C("removal-reported", G(st, "rem")[op]),
+            C("insertion-of-every-new-op-reported", all_in(a["new_ops"], G(st, "ins")))]
+
+
+def b_tracking_new(ex, st, args, kw):
+    """_TrackingPredicate(predicate): fresh object, modified_ops = [] (its __init__ is two assignments)."""
+    r = st.new_object("tracking")
+    l = st.new_object("list")
+    st.list_store(l, z3.K(I, z3.IntVal(0)), z3.IntVal(0))
+    st.store("modified_ops", r, l)
+    st.store("predicate", r, z_int(args[0]))
+    return ret(VRef(r, "_TrackingPredicate"), st)
+
+
+PRED = z3.Function("predicate_holds", I, I, B)  # the user predicate (a pure test, by the method's documentation): PRED(predicate, use)
+
+
+class ValueRUWI(Spec):
+    """SSAValue.replace_uses_with_if(value, tracking) as seen by the rewriter (TRUSTED; its loop calls tracking(use) for every use)."""
+
+    prop, file, qualname = PROP, CORE, "SSAValue.replace_uses_with_if"
+    trusted = True
+    ghost_modifies = ["mut"]
+    modifies = ["list#len", "list#el", "_name"]
+
+    def _some(self, old, a):
+        j = z3.Int("vr!j")
+        f, p = a["self"].z, old.sel("predicate", a["predicate"].z)
+        return z3.Exists([j], z3.And(j >= 0, j < NUSES(f), PRED(p, USES(f)[j])))
+
     def ghost_update(self, old, st, a, result):
+        return {"mut": z3.Or(G(old, "mut"), self._some(old, a))}
+
+    def post(self, old, st, a, res):
+        t = a["predicate"].z
+        f, p = a["self"].z, old.sel("predicate", t)
+        l = old.sel("modified_ops", t)
+        j, i, r = z3.Ints("vr!j vr!i vr!r")
+        return [A("tracked: the op of every use that passed the predicate is recorded",
+                  forall([j], z3.Implies(z3.And(j >= 0, j < NUSES(f), PRED(p, USES(f)[j])),
+                                         z3.Exists([i], z3.And(i >= 0, i < st.list_len(l), st.list_el(l, i) == old.sel("operation", USES(f)[j])))))),
+                A("recorded-nonempty-iff-some-use-passed", (st.list_len(l) > old.list_len(l)) == self._some(old, a)),
+                A("length", st.list_len(l) >= old.list_len(l)),
+                A("recorded ops are objects", forall([i], z3.Implies(z3.And(i >= 0, i < st.list_len(l)), st.list_el(l, i) > 0))),
+                A("other-lists-unchanged", forall([r], z3.Implies(r != l, z3.And(st.list_len(r) == old.list_len(r), st.list_arr(r) == old.list_arr(r)))))]
+
+
+class RUWISpec(RewriterMethod):
+    """PatternRewriter.replace_uses_with_if(from_value, to_value, predicate)."""
+
+    def __init__(self):
+        RewriterMethod.__init__(self, "replace_uses_with_if")
+        self.calls["_TrackingPredicate"] = Builtin(b_tracking_new, b_tracking_new.__doc__)
+        self.calls["from_value.replace_uses_with_if"] = ValueRUWI()
+        self.modifies = ["has_done_action", "_name", "list#len", "list#el"]
+
+    def setup(self, st, inst):
+        ghost_setup(st)
+        return {"self": VRef(st.declare_input("self", z3.Int("self")), "PatternRewriter"),
+                "from_value": VRef(st.declare_input("from_value", z3.Int("from_value")), "SSAValue"),
+                "to_value": VRef(st.declare_input("to_value", z3.Int("to_value")), "SSAValue"),
+                "predicate": VRef(st.declare_input("predicate", z3.Int("predicate")), "callable")}
+
+    def inv(self, n, entry, st, a, lv):
+        j = z3.Int("i!j")
+        mo = lv["iter"]
+        arr, rw = entry.list_arr(mo.z), a["self"].z
+        return [A("modified-ops-so-far-reported", forall([j], z3.Implies(z3.And(j >= 0, j < lv["k"]), G(st, "mod")[arr[j]]))),
+                A("logs-grow", logs_monotone(entry, st)), A("only-mod-log-changes", logs_unchanged(entry, st, ("ins", "rem", "rep"))),
+                A("nothing-reported-before-the-first-iteration", z3.Or(lv["k"] > 0, G(st, "mod") == G(entry, "mod"))),
+                A("flag-kept", flag(st, rw) == flag(entry, rw)), A("mut-kept", G(st, "mut") == G(entry, "mut")),
+                A("list-unchanged", z3.And(st.list_len(mo.z) == entry.list_len(mo.z), st.list_arr(mo.z) == arr))]
+
+    def post(self, old, st, a, res):
+        rw, f, t, p = a["self"].z, a["from_value"].z, a["to_value"].z, a["predicate"].z
+        j = z3.Int("r!j")
+        return list(acted_iff(old, st, rw)) + [
+            C("every-user-whose-use-was-replaced-is-reported-as-modified",
+              z3.Implies(f != t, forall([j], z3.Implies(z3.And(j >= 0, j < NUSES(f), PRED(p, USES(f)[j])), G(st, "mod")[old.sel("operation", USES(f)[j])])))),
+            C("same-value: nothing happens", z3.Implies(f == t, z3.And(logs_unchanged(old, st), G(st, "mut") == G(old, "mut"), flag(st, rw) == flag(old, rw))))]
+
+
+class TrackingCall(Spec):
+    """_TrackingPredicate.__call__(use): forwards to the predicate and records the op of every use it accepts."""
+
+    prop, file, qualname = PROP, PR, "_TrackingPredicate.__call__"
+    modifies = ["list#len", "list#el"]
+
+    def __init__(self):
+        def pred(ex, st, args, kw):
+            return ret(VBool(PRED(st.sel("predicate", st.env["self"].z), args[0].z)), st)
+
+        self.calls = {"self.predicate": Builtin(pred, "the user predicate: a pure test of the use")}
+
+    def setup(self, st, inst):
+        return {"self": VRef(st.declare_input("self", z3.Int("self")), "_TrackingPredicate"), "use": VRef(st.declare_input("use", z3.Int("use")), "Use")}
+
+    def pre(self, st, a):
+        l = st.sel("modified_ops", a["self"].z)
+        return [A("objects", z3.And(a["self"].z > 0, a["use"].z > 0, l > 0, st.list_len(l) >= 0))]
+
+    def post(self, old, st, a, res):
+        t, u = a["self"].z, a["use"].z
+        l = old.sel("modified_ops", t)
+        p = PRED(old.sel("predicate", t), u)
+        rz = res.z if isinstance(res, VBool) else z3.BoolVal(bool(res))
+        n0 = old.list_len(l)
+        return [C("returns-the-predicate", rz == p),
+                C("accepted: the user op is appended", z3.Implies(p, z3.And(st.list_len(l) == n0 + 1, st.list_el(l, n0) == old.sel("operation", u)))),
+                C("rejected: nothing recorded", z3.Implies(z3.Not(p), z3.And(st.list_len(l) == n0, st.list_arr(l) == old.list_arr(l)))),
+                A("earlier records kept", forall([z3.Int("tc!i")], z3.Implies(z3.And(z3.Int("tc!i") >= 0, z3.Int("tc!i") < n0), st.list_el(l, z3.Int("tc!i")) == old.list_el(l, z3.Int("tc!i")))))]
+
+
+class BuilderInsert(Spec):
+    """Builder.insert: inserts through Rewriter.insert_op and reports every inserted op to handle_operation_insertion."""
+
+    prop, file, qualname = PROP, BU, "Builder.insert"
+    ghost_modifies = ["mut", "ins"]
+    modifies = ["_name"]
+
+    def __init__(self):
+        self.calls = {"self.handle_operation_insertion": D["insertion"], "Rewriter.insert_op": M_INSERT_OP}
+
+    @property
+    def globals(self):
+        return {"__isinstance__": ISINST, "__getattr__": _getattr_hook, "Rewriter": VGlobal("Rewriter")}
+
+    def setup(self, st, inst):
+        ghost_setup(st)
+        self._single = inst["single"]
+        a = {"self": VRef(st.declare_input("self", z3.Int("self")), "Builder"),
+             "insertion_point": VRef(st.declare_input("insertion_point", z3.Int("insertion_point")), "InsertPoint")}
+        if self._single:
+            a["op"] = VRef(st.declare_input("op", z3.Int("op")), "Operation")
+        else:
+            a["op"] = VSeq(z3.Array("ops", I, I), st.declare_input("n_ops", z3.Int("n_ops")), "ref", "Operation")
+        return a
+
+    def bind(self, st, a, inst):
+        return {"_current_builder.builder": VRef(st.declare_input("implicit_builder", z3.Int("implicit_builder")), "Builder")}
+
+    def pre(self, st, a):
+        b = a["self"].z
+        l = st.sel("operation_insertion_handler", b)
+        out = world() + results_ok(st) + [A("builder-object", b > 0), A("handler-list-object", z3.And(l > 0, st.list_len(l) >= 0))]
+        if isinstance(a["op"], VRef):
+            out.append(A("op-is-an-operation", z3.And(a["op"].z > 0, ISOP(a["op"].z))))
+        elif isinstance(a["op"], VSeq):
+            j = z3.Int("p!j")
+            out += [A("ops-length", a["op"].n >= 0),
+                    A("ops-are-operations", forall([j], z3.Implies(z3.And(j >= 0, j < a["op"].n), a["op"].arr[j] > 0)))]
+        return out
+
+    def inv(self, n, entry, st, a, lv):
+        j = z3.Int("bi!j")
+        if "elem" in lv and lv["iter"] is not None and isinstance(lv["iter"], VSeq) and lv["iter"].ecls == "OpResult":
+            # inner loop over the results of one inserted op: only name hints are written
+            return [A("log-unchanged", G(st, "ins") == G(entry, "ins")), A("mut-unchanged", G(st, "mut") == G(entry, "mut"))]
+        ops = a["op"]
+        return [A("inserted-so-far-reported", forall([j], z3.Implies(z3.And(j >= 0, j < lv["k"]), G(st, "ins")[ops.arr[j]]))),
+                A("log-only-grows", subset(G(entry, "ins"), G(st, "ins"))), A("mut-unchanged", G(st, "mut") == G(entry, "mut"))]
+
+    def post(self, old, st, a, res):
+        n = count_of(a["op"])
+        return [C("every-inserted-operation-is-reported", all_in(a["op"], G(st, "ins"))),
+                C("nothing-inserted: no report, no mutation", z3.Implies(n == 0, z3.And(G(st, "ins") == G(old, "ins"), G(st, "mut") == G(old, "mut")))),
+                A("log-only-grows", subset(G(old, "ins"), G(st, "ins"))),
+                A("mut-monotone", z3.Implies(G(old, "mut"), G(st, "mut")))]
+
+    def post_exc(self, old, st, a, exc):
+        if exc == "ValueError":
+            return [C("rejected-before-any-mutation", z3.And(G(st, "mut") == G(old, "mut"), G(st, "ins") == G(old, "ins")))]
+        return None
+
+    def result_value(self, st, a):
+        return a["op"]
+
+    def exc_cases(self, st, a):
+        return [("ValueError", z3.And(count_of(a["op"]) > 0, st.fresh_bool("implicit-builder-active")))]
+
+
+
+# ------------------------------------------------------------------ (c) the walker's callbacks against the Worklist contract of C12
+WPUSH, WPOP, WREMOVE, WBOOL = (K12.WorklistSpec(m) for m in ("push", "pop", "remove", "__bool__"))
+
+
+def WV(st, walker):
+    return K12.WView(st, st.sel("_worklist", walker))
+
+
+def wl_ok(st, walker):
+    w = st.sel("_worklist", walker)
+    return [Clause(c.name, c.z, "aux") for c in K12.wl_inv(st, w)]
+
+
+def wl_truthy(st, v):
+    """bool(worklist): the contract of Worklist.__bool__ (C12): reports non-emptiness, view unchanged (trailing sentinels may be popped)."""
+    old = st.snapshot()
+    st.havoc(WBOOL.modifies)
+    b = st.fresh_bool("nonempty")
+    for c in WBOOL.post(old, st, {"self": v}, VBool(b)):
+        st.assume(c.z)
+    return b
+
+
+def only_grows(old, st, walker):
+    x = z3.Int("og!x")
+    o, n = WV(old, walker), WV(st, walker)
+    return forall([x], z3.Implies(o.has(x), n.has(x)), patterns=[o.has(x), n.has(x)])
+
+
+def same_worklist_object(old, st, walker):
+    return z3.And(st.sel("_worklist", walker) == old.sel("_worklist", walker), WV(st, walker).S == WV(old, walker).S, WV(st, walker).M == WV(old, walker).M,
+                  st.sel("apply_recursively", walker) == old.sel("apply_recursively", walker))
+
+
+def b_has_one_use(ex, st, args, kw):
+    return ret(VBool(ONEUSE(args[0].z)), st)
+
+
+class WalkerMethod(Spec):
+    prop, file = PROP, PR
+    modifies = ["list#len", "list#el", "dict#dom", "dict#val"]
+
+    def __init__(self, method):
+        self.method = method
+        self.qualname = f"PatternRewriteWalker.{method}"
+        self.calls = {"self._worklist.push": WPUSH, "self._worklist.remove": WREMOVE, "self._worklist.pop": WPOP, ".has_one_use": Builtin(b_has_one_use)}
+        if method == "_handle_operation_removal":
+            self.calls["self._add_operands_to_worklist"] = WalkerMethod("_add_operands_to_worklist")
+
+    @property
+    def globals(self):
+        return {"__isinstance__": ISINST, "__getattr__": _getattr_hook, "__truthy__": {"Worklist": wl_truthy}}
+
+    def setup(self, st, inst):
+        me = st.declare_input("self", z3.Int("self"))
+        a = {"self": VRef(me, "PatternRewriteWalker")}
+        m = self.method
+        if m.startswith("_handle_operation") or m == "_populate_worklist":
+            a["op"] = VRef(st.declare_input("op", z3.Int("op")), "Operation")
+        if m == "_handle_operation_replacement":
+            a["new_results"] = VSeq(z3.Array("new_results", I, I), z3.Int("n_new_results"), "ref", "SSAValue")
+        if m == "_add_operands_to_worklist":
+            a["operands"] = VSeq(z3.Array("operands", I, I), st.declare_input("n_operands", z3.Int("n_operands")), "ref", "SSAValue")
+        return a
+
+    def bind(self, st, a, inst):
+        if self.method == "_handle_operation_removal":
+            return {"op.walk()": VSeq(WALK(a["op"].z), NWALK(a["op"].z), "ref", "Operation")}
+        if self.method == "_populate_worklist":
+            return {"op.walk(reverse=not self.walk_reverse, region_first=not self.walk_regions_first)": VSeq(WALK(a["op"].z), NWALK(a["op"].z), "ref", "Operation")}
         return {}
+
+    def pre(self, st, a):
+        me = a["self"].z
+        u, o, j = z3.Ints("wp!u wp!o wp!j")
+        out = world() + results_ok(st) + wl_ok(st, me) + [
+            A("walker-object", me > 0),
+            AX("the-sentinel-and-None-are-not-operations", z3.And(z3.Not(ISOP(MISSING)), forall([o], z3.Implies(ISOP(o), o > 0), patterns=[ISOP(o)]))),
+            AX("a-use-belongs-to-an-operation", forall([u], z3.Implies(u > 0, ISOP(st.sel("operation", u))))),
+            AX("walk-yields-operations", forall([o, j], z3.Implies(z3.And(ISOP(o), j >= 0, j < NWALK(o)), ISOP(WALK(o)[j])), patterns=[WALK(o)[j]])),
+            AX("an-op-without-regions-has-no-nested-ops", forall([o], z3.Implies(z3.And(ISOP(o), st.seq_len("regions", o) == 0), NWALK(o) == 1))),
+            AX("region-counts-nonneg", forall([o], st.seq_len("regions", o) >= 0)),
+            AX("operand-counts-nonneg", forall([o], st.seq_len("_operands", o) >= 0))]
+        if "op" in a:
+            out.append(A("op-is-an-operation", z3.And(a["op"].z > 0, ISOP(a["op"].z))))
+        if "operands" in a:
+            out.append(A("operands-length", a["operands"].n >= 0))
+        return out
+
+    def inv(self, n, entry, st, a, lv):
+        me = a["self"].z
+        v = WV(st, me)
+        k = lv["k"]
+        i, j = z3.Ints("wi!i wi!j")
+        base = wl_ok(st, me) + [A("same-worklist", same_worklist_object(entry, st, me))]
+        m = self.method
+        if m == "_handle_operation_removal":
+            op = a["op"].z
+            return base + [A("walked-prefix-removed", forall([j], z3.Implies(z3.And(j >= 0, j < k), z3.Not(v.has(WALK(op)[j])))))]
+        if m in ("_add_operands_to_worklist",):
+            return base + [A("only-grows", only_grows(entry, st, me)),
+                           A("new-members-are-operations", forall([i], z3.Implies(z3.And(v.has(i), z3.Not(WV(entry, me).has(i))), ISOP(i)), patterns=[v.has(i)]))]
+        if m == "_populate_worklist":
+            op = a["op"].z
+            return base + [A("only-grows", only_grows(entry, st, me)), A("walked-prefix-pushed", forall([j], z3.Implies(z3.And(j >= 0, j < k), v.has(WALK(op)[j]))))]
+        if m == "_handle_operation_replacement":
+            op = a["op"].z
+            res = lambda q: entry.seq_el("results", op, q)
+            users_of = lambda r_, upto: forall([j], z3.Implies(z3.And(j >= 0, j < upto), v.has(entry.sel("operation", USES(r_)[j]))))
+            if n == 0:
+                return base + [A("only-grows", only_grows(entry, st, me)),
+                               A("users-of-processed-results-pushed", forall([i, j], z3.Implies(z3.And(i >= 0, i < k, j >= 0, j < NUSES(res(i))),
+                                                                                               v.has(entry.sel("operation", USES(res(i))[j])))))]
+            r_ = lv["env"]["result"].z
+            return base + [A("only-grows", only_grows(entry, st, me)), A("users-so-far-pushed", users_of(r_, k))]
+        return None
+
+    def post(self, old, st, a, res):
+        me = a["self"].z
+        o, v = WV(old, me), WV(st, me)
+        rec = old.sel("apply_recursively", me)
+        i, j, x = z3.Ints("wq!i wq!j wq!x")
+        out = wl_ok(st, me) + [A("same-worklist", same_worklist_object(old, st, me))]
+        m = self.method
+        if m in ("_handle_operation_insertion", "_handle_operation_modification"):
+            op = a["op"].z
+            out += [C("recursive mode: the operation is (re)visited", z3.Implies(rec, v.has(op))), C("nothing-leaves-the-worklist", only_grows(old, st, me)),
+                    C("non-recursive mode: worklist unchanged", z3.Implies(z3.Not(rec), forall([x], v.has(x) == o.has(x))))]
+        if m == "_handle_operation_removal":
+            op = a["op"].z
+            out += [C("the-removed-operation-and-every-operation-nested-in-it-leave-the-worklist",
+                      forall([j], z3.Implies(z3.And(j >= 0, j < NWALK(op)), z3.Not(v.has(WALK(op)[j]))))),
+                    C("the-removed-operation-leaves-the-worklist", z3.Not(v.has(op)))]
+        if m == "_add_operands_to_worklist":
+            out += [C("nothing-leaves-the-worklist", only_grows(old, st, me)),
+                    A("new-members-are-operations", forall([x], z3.Implies(z3.And(v.has(x), z3.Not(o.has(x))), ISOP(x)), patterns=[v.has(x)]))]
+        if m == "_populate_worklist":
+            op = a["op"].z
+            out += [C("every-operation-of-the-walk-is-on-the-worklist", forall([j], z3.Implies(z3.And(j >= 0, j < NWALK(op)), v.has(WALK(op)[j])))),
+                    C("nothing-leaves-the-worklist", only_grows(old, st, me))]
+        if m == "_handle_operation_replacement":
+            op = a["op"].z
+            res_ = lambda q: old.seq_el("results", op, q)
+            out += [C("recursive mode: every user of a replaced result is revisited",
+                      z3.Implies(rec, forall([i, j], z3.Implies(z3.And(i >= 0, i < old.seq_len("results", op), j >= 0, j < NUSES(res_(i))),
+                                                                v.has(old.sel("operation", USES(res_(i))[j])))))),
+                    C("nothing-leaves-the-worklist", only_grows(old, st, me))]
+        return out
+
+
+# ------------------------------------------------------------------ (d) the driver: _process_worklist, rewrite_region
+def erased_free(st, walker):
+    x = z3.Int("ef!x")
+    return forall([x], z3.Implies(G(st, "ERASED")[x], z3.Not(WV(st, walker).has(x))), patterns=[G(st, "ERASED")[x], WV(st, walker).has(x)])
+
+
+def region_alive(st):
+    x = z3.Int("ra!x")
+    return forall([x], z3.Implies(INREGION(x, G(st, "epoch")), z3.And(z3.Not(G(st, "ERASED")[x]), ISOP(x))), patterns=[INREGION(x, G(st, "epoch"))])
+
+
+def fixpoint(st):
+    x = z3.Int("fx!x")
+    return forall([x], z3.Implies(INREGION(x, G(st, "epoch")), G(st, "VIS")[x]), patterns=[INREGION(x, G(st, "epoch"))])
+
+
+def same_view(old, st, walker):
+    x = z3.Int("sv!x")
+    return forall([x], WV(st, walker).has(x) == WV(old, walker).has(x))
+
+
+EMPTY = z3.K(I, z3.BoolVal(False))
+DRIVER_GHOSTS = ["mut", "ERASED", "VIS", "epoch"]
+WL_FRAME = ["list#len", "list#el", "dict#dom", "dict#val"]
+
+
+class Pattern(Spec):
+    """
+    ASSUMED contract of `self.pattern.match_and_rewrite(op, rewriter)` as called by the driver: the statement's hypothesis that the pattern
+    changes the IR only through the rewriter it is given, lifted over an arbitrary finite sequence of rewriter-method calls.  Each clause is
+    what the discharged units give for ONE call (in brackets), closed under sequencing:
+      * mut' => mut or flag'                        [PatternRewriter.*: action-flag-set-whenever-the-IR-was-mutated; flag-never-reset]
+      * not flag' => worklist, ERASED, epoch, mut unchanged and VIS' = VIS + {op}
+                                                    [listeners-are-only-notified-together-with-the-action-flag: without a notification no walker
+                                                     callback runs, so the worklist is untouched]
+      * erased operations are not on the worklist   [PatternRewriter.erase reports the removal before erasing (call-pre of Rewriter.erase_op);
+                                                     Dispatch: every registered callback is invoked; _handle_operation_removal takes the op and
+                                                     every nested op off the worklist; the other callbacks push only ops they are handed,
+                                                     which a well-behaved pattern does not pass after erasing them]
+      * any action invalidates the record of fruitless visits (VIS' empty)
+    The walker is the ghost `_walker` (the listener handed to the rewriter forwards to it: _get_rewriter_listener + extend_from_listener).
+    """
+
+    prop, file, qualname = PROP, PR, "RewritePattern.match_and_rewrite"
+    trusted = True
+    modifies = WL_FRAME + ["has_done_action"]
+    ghost_modifies = DRIVER_GHOSTS
+
+    def pre(self, st, a):
+        w, op, rw = st.ghost["_walker"], a["op"].z, a["rewriter"].z
+        return [C("patterns-are-never-invoked-on-erased-or-detached-operations", z3.Not(G(st, "ERASED")[op])),
+                A("the-action-flag-is-reset-before-each-match", z3.Not(flag(st, rw))),
+                A("the-rewriter-targets-the-matched-op", st.sel("current_operation", rw) == op),
+                A("worklist-free-of-erased-operations", erased_free(st, w))] + wl_ok(st, w)
+
+    def post(self, old, st, a, res):
+        w, op, rw = old.ghost["_walker"], a["op"].z, a["rewriter"].z
+        x = z3.Int("pt!x")
+        fl = flag(st, rw)
+        return wl_ok(st, w) + [
+            A("same-worklist", same_worklist_object(old, st, w)),
+            A("no-action: nothing changed, the visit is recorded",
+              z3.Implies(z3.Not(fl), z3.And(same_view(old, st, w), G(st, "mut") == G(old, "mut"), G(st, "ERASED") == G(old, "ERASED"),
+                                            G(st, "epoch") == G(old, "epoch"), G(st, "VIS") == z3.Store(G(old, "VIS"), op, True)))),
+            A("an-action-invalidates-earlier-fruitless-visits", z3.Implies(fl, G(st, "VIS") == EMPTY)),
+            A("mutation-implies-flag", z3.Implies(G(st, "mut"), z3.Or(G(old, "mut"), fl))), A("mut-monotone", z3.Implies(G(old, "mut"), G(st, "mut"))),
+            A("erased-only-grows", subset(G(old, "ERASED"), G(st, "ERASED"))),
+            A("worklist-free-of-erased-operations", erased_free(st, w)),
+            A("region-ops-are-alive", region_alive(st)),
+            A("other-rewriter-fields-untouched", st.sel("current_operation", rw) == old.sel("current_operation", rw))]
+
+    def exc_cases(self, st, a):
+        return [("Exception", st.fresh_bool("pattern-raises"))]
+
+    def post_exc(self, old, st, a, exc):
+        return []
+
+
+PATTERN = Pattern()
+
+
+def b_new_rewriter(ex, st, args, kw):
+    """PatternRewriter(op): a fresh rewriter (has_done_action False, empty handler lists) targeting op."""
+    r = st.new_object("rewriter")
+    st.store("has_done_action", r, z3.BoolVal(False))
+    st.store("current_operation", r, z_int(args[0]))
+    return ret(VRef(r, "PatternRewriter"), st)
+
+
+def b_noop(ex, st, args, kw):
+    return ret(None, st)
+
+
+def b_emit_error(ex, st, args, kw):
+    return [Res("raise", "DiagnosticException", st)]
+
+
+class ProcessWorklist(Spec):
+    prop, file, qualname = PROP, PR, "PatternRewriteWalker._process_worklist"
+    modifies = WL_FRAME + ["has_done_action", "current_operation", "insertion_point", "_name_hint"]
+    ghost_modifies = DRIVER_GHOSTS
+
+    def __init__(self):
+        self.calls = {"self._worklist.pop": WPOP, "PatternRewriter": Builtin(b_new_rewriter, b_new_rewriter.__doc__),
+                      "rewriter.extend_from_listener": Builtin(b_noop, "forwarding of the listener: contract of extend_from_listener (discharged separately)"),
+                      "InsertPoint.before": Builtin(b_insert_point), "self.pattern.match_and_rewrite": PATTERN,
+                      "op.emit_error": Builtin(b_emit_error, "Operation.emit_error always raises")}
+
+    @property
+    def globals(self):
+        return {"__truthy__": {"Worklist": wl_truthy}, "__setters__": SETTERS, "InsertPoint": VGlobal("InsertPoint")}
+
+    def setup(self, st, inst):
+        ghost_setup(st)
+        me = st.declare_input("self", z3.Int("self"))
+        st.ghost["_walker"] = me
+        return {"self": VRef(me, "PatternRewriteWalker"), "listener": VRef(st.declare_input("listener", z3.Int("listener")), "PatternRewriterListener")}
+
+    def pre(self, st, a):
+        me = a["self"].z
+        o = z3.Int("pw!o")
+        return world() + wl_ok(st, me) + [A("walker-object", me > 0), A("worklist-free-of-erased-operations", erased_free(st, me)),
+                                          A("region-ops-are-alive", region_alive(st)),
+                                          AX("operations-are-objects", forall([o], z3.Implies(ISOP(o), o > 0), patterns=[ISOP(o)]))]
+
+    def inv(self, n, entry, st, a, lv):
+        me = a["self"].z
+        env = lv["env"]
+        op, rw, acted = env["op"].z, env["rewriter"].z, env["rewriter_has_done_action"]
+        acted = z3.BoolVal(acted) if isinstance(acted, bool) else acted.z
+        x = z3.Int("pi!x")
+        v = WV(st, me)
+        has0 = lambda q: z3.Select(z3.Select(z3.Const("H0.dict#dom", z3.ArraySort(I, SET)), z3.Select(z3.Const("H0._map", z3.ArraySort(I, I)), z3.Select(z3.Const("H0._worklist", z3.ArraySort(I, I)), me))), q)
+        return wl_ok(st, me) + [
+            A("same-worklist", same_worklist_object(entry, st, me)),
+            A("current-op-is-alive", z3.Not(G(st, "ERASED")[op])),
+            A("mut-monotone", z3.Implies(G0("mut"), G(st, "mut"))),
+            A("rewriter-object", rw > 0),
+            A("worklist-free-of-erased-operations", erased_free(st, me)),
+            A("region-ops-are-alive", region_alive(st)),
+            A("a-mutation-has-been-recorded-as-an-action", z3.Implies(G(st, "mut"), z3.Or(G0("mut"), acted))),
+            A("no-action-so-far: every op of the initial worklist is visited, pending or current; nothing changed",
+              z3.Implies(z3.Not(acted), z3.And(forall([x], z3.Implies(has0(x), z3.Or(G(st, "VIS")[x], v.has(x), x == op))),
+                                               subset(G0("VIS"), G(st, "VIS")), G(st, "mut") == G0("mut"), G(st, "epoch") == G0("epoch"),
+                                               G(st, "ERASED") == G0("ERASED")))),
+        ]
+
+    def post(self, old, st, a, res):
+        me = a["self"].z
+        rz = res.z if isinstance(res, VBool) else z3.BoolVal(bool(res))
+        x = z3.Int("pp!x")
+        o, v = WV(old, me), WV(st, me)
+        return wl_ok(st, me) + [
+            C("reports-a-modification-whenever-the-IR-changed", z3.Implies(G(st, "mut"), z3.Or(G(old, "mut"), rz))),
+            C("no-action-reported: every operation that was on the worklist has been visited by the pattern without effect and the IR is unchanged",
+              z3.Implies(z3.Not(rz), z3.And(forall([x], z3.Implies(o.has(x), G(st, "VIS")[x])), subset(G(old, "VIS"), G(st, "VIS")),
+                                            G(st, "mut") == G(old, "mut"), G(st, "epoch") == G(old, "epoch")))),
+            C("the-worklist-is-drained", forall([x], z3.Not(v.has(x)))),
+            A("same-worklist", same_worklist_object(old, st, me)),
+            A("worklist-free-of-erased-operations", erased_free(st, me)), A("region-ops-are-alive", region_alive(st)),
+            A("mut-monotone", z3.Implies(G(old, "mut"), G(st, "mut")))]
+
+    def post_exc(self, old, st, a, exc):
+        if exc == "DiagnosticException":
+            return []  # a failing pattern aborts the walk with a diagnostic; nothing is claimed about the IR
+        return None
+
+    def result_value(self, st, a):
+        return VBool(st.fresh_bool("acted"))
+
+    def exc_cases(self, st, a):
+        return [("DiagnosticException", st.fresh_bool("a-pattern-raised"))]
+
+
+class PopulateCallee(Spec):
+    """
+    _populate_worklist(region) as seen by rewrite_region: the discharged postcondition of _populate_worklist, with walk_of(region) read as
+    'the operations of the region in the current IR version' (INREGION(., epoch)).
+    """
+
+    prop, file, qualname = PROP, PR, "PatternRewriteWalker._populate_worklist"
+    trusted = True
+    modifies = WL_FRAME
+
+    def pre(self, st, a):
+        return wl_ok(st, a["self"].z)
+
+    def post(self, old, st, a, res):
+        me = a["self"].z
+        x = z3.Int("pc!x")
+        o, v = WV(old, me), WV(st, me)
+        return wl_ok(st, me) + [A("same-worklist", same_worklist_object(old, st, me)),
+                                A("every-operation-of-the-region-is-on-the-worklist", forall([x], z3.Implies(INREGION(x, G(st, "epoch")), v.has(x)), patterns=[INREGION(x, G(st, "epoch"))])),
+                                A("nothing-leaves-the-worklist", only_grows(old, st, me)),
+                                A("only-operations-of-the-region-are-added", forall([x], z3.Implies(z3.And(v.has(x), z3.Not(o.has(x))), INREGION(x, G(st, "epoch"))), patterns=[v.has(x)]))]
+
+
+def b_post_walk(ex, st, args, kw):
+    """
+    self.post_walk_func(region, listener): ASSUMED to report truthfully whether it changed the IR (it is documented to return that); when it
+    returns False nothing changes; when it returns True the worklist may have been touched through the listener (same guarantees as a pattern).
+    """
+    w = st.ghost["_walker"]
+    out = []
+    for changed, bs in ex.split(st, st.fresh_bool("post-walk-changed")):
+        if changed:
+            old = bs.snapshot()
+            bs.havoc(WL_FRAME)
+            for g in DRIVER_GHOSTS:
+                bs.ghost[g] = bs.fresh("G." + g, bs.ghost[g].sort())
+            for c in wl_ok(bs, w):
+                bs.assume(c.z)
+            bs.assume(z3.And(same_worklist_object(old, bs, w), erased_free(bs, w), region_alive(bs), G(bs, "VIS") == EMPTY,
+                             z3.Implies(G(old, "mut"), G(bs, "mut")), subset(G(old, "ERASED"), G(bs, "ERASED"))))
+        out.append(Res("val", VBool(z3.BoolVal(changed)), bs))
+    return out
+
+
+b_post_walk.modifies = WL_FRAME
+
+
+class RewriteRegion(Spec):
+    prop, file, qualname = PROP, PR, "PatternRewriteWalker.rewrite_region"
+    modifies = WL_FRAME + ["has_done_action", "current_operation", "insertion_point", "_name_hint"]
+    ghost_modifies = DRIVER_GHOSTS
+
+    def __init__(self):
+        self.calls = {"self._get_rewriter_listener": Builtin(lambda ex, st, a, k: ret(VRef(st.fresh_int("listener"), "PatternRewriterListener"), st),
+                                                             "builds the forwarding listener (no effect on the IR or the worklist)"),
+                      "self._populate_worklist": PopulateCallee(), "self._process_worklist": ProcessWorklist(),
+                      "self.post_walk_func": Builtin(b_post_walk, b_post_walk.__doc__)}
+
+    def setup(self, st, inst):
+        ghost_setup(st)
+        me = st.declare_input("self", z3.Int("self"))
+        st.ghost["_walker"] = me
+        return {"self": VRef(me, "PatternRewriteWalker"), "region": VRef(st.declare_input("region", z3.Int("region")), "Region")}
+
+    def pre(self, st, a):
+        me = a["self"].z
+        o = z3.Int("rr!o")
+        return world() + wl_ok(st, me) + [A("walker-object", me > 0), A("worklist-free-of-erased-operations", erased_free(st, me)),
+                                          A("region-ops-are-alive", region_alive(st)),
+                                          AX("operations-are-objects", forall([o], z3.Implies(ISOP(o), o > 0), patterns=[ISOP(o)]))]
+
+    def inv(self, n, entry, st, a, lv):
+        me = a["self"].z
+        env = lv["env"]
+        b = lambda v: z3.BoolVal(v) if isinstance(v, bool) else v.z
+        mod, result = b(env["op_was_modified"]), b(env["result"])
+        return wl_ok(st, me) + [
+            A("same-worklist", same_worklist_object(entry, st, me)),
+            A("worklist-free-of-erased-operations", erased_free(st, me)), A("region-ops-are-alive", region_alive(st)),
+            A("a-mutation-has-been-reported", z3.Implies(G(st, "mut"), z3.Or(G0("mut"), result))),
+            A("a-modifying-sweep-is-reported", z3.Implies(mod, result)),
+            A("a-sweep-without-modification-leaves-a-fixpoint", z3.Implies(z3.Not(mod), fixpoint(st)))]
+
+    def post(self, old, st, a, res):
+        me = a["self"].z
+        rz = res.z if isinstance(res, VBool) else z3.BoolVal(bool(res))
+        return [C("the-walker-reports-a-modification-whenever-the-IR-changed", z3.Implies(G(st, "mut"), z3.Or(G(old, "mut"), rz))),
+                C("recursive mode: on return every operation of the region has been visited by the pattern without effect on the final IR (fixpoint)",
+                  z3.Implies(old.sel("apply_recursively", me), fixpoint(st)))]
+
+    def post_exc(self, old, st, a, exc):
+        if exc == "DiagnosticException":
+            return []
+        return None
+
+
+# ------------------------------------------------------------------ (e) GreedyRewritePatternApplier.match_and_rewrite
+class SubPattern(Spec):
+    """ASSUMED contract of a sub-pattern of the applier: it changes the IR only through the rewriter (same hypothesis as PATTERN)."""
+
+    prop, file, qualname = PROP, PR, "RewritePattern.match_and_rewrite"
+    trusted = True
+    modifies = ["has_done_action"]
+    ghost_modifies = ["mut", "ins", "rem", "mod", "rep", "TRIED"]
+
+    def post(self, old, st, a, res):
+        rw = a["rewriter"].z
+        return [A("mutation-implies-flag", z3.Implies(G(st, "mut"), z3.Or(G(old, "mut"), flag(st, rw)))),
+                A("no-action: nothing changed", z3.Implies(z3.Not(flag(st, rw)), z3.And(G(st, "mut") == G(old, "mut"), logs_unchanged(old, st)))),
+                A("flag-never-reset", z3.Implies(flag(old, rw), flag(st, rw))), A("log-only-grows", logs_monotone(old, st)),
+                A("tried", G(st, "TRIED") == z3.Store(G(old, "TRIED"), a["self"].z, True))]
+
+
+def b_try_fold(ex, st, args, kw):
+    """Folder(ctx).try_fold(op): None, or (values, new constant ops) - builds detached ops only, no IR mutation (TRUSTED)."""
+    out = []
+    for ok, bs in ex.split(st, st.fresh_bool("folds")):
+        if not ok:
+            out.append(Res("val", None, bs))
+            continue
+        vals = VSeq(bs.fresh("fold!vals", z3.ArraySort(I, I)), bs.fresh_int("fold!nv"), "ref", "SSAValue")
+        ops = VSeq(bs.fresh("fold!ops", z3.ArraySort(I, I)), bs.fresh_int("fold!no"), "ref", "Operation")
+        j = z3.Int("tf!j")
+        bs.assume(z3.And(vals.n >= 0, ops.n >= 0, forall([j], z3.Implies(z3.And(j >= 0, j < ops.n), ops.arr[j] > 0))))
+        out.append(Res("val", VTuple([vals, ops]), bs))
+    return out
+
+
+class Applier(Spec):
+    prop, file, qualname = PROP, PR, "GreedyRewritePatternApplier.match_and_rewrite"
+    modifies = ["has_done_action", "_name"]
+    ghost_modifies = ["mut", "ins", "rem", "mod", "rep", "TRIED"]
+
+    def __init__(self):
+        self.calls = {"is_trivially_dead": Builtin(lambda ex, st, a, k: ret(VBool(ITD(a[0].z)), st), "contract of is_trivially_dead (C13)"),
+                      "rewriter.erase": RewriterMethod("erase"), "rewriter.replace": ReplaceSpec(),
+                      "op.has_trait": Builtin(lambda ex, st, a, k: ret(VBool(st.fresh_bool("trait")), st), "trait test: arbitrary"),
+                      "Folder(self.ctx).try_fold": Builtin(b_try_fold, b_try_fold.__doc__),
+                      "pattern.match_and_rewrite": SubPattern()}
+
+    @property
+    def globals(self):
+        return {"__isinstance__": ISINST, "__getattr__": _getattr_hook, "HasFolder": VGlobal("HasFolder"), "ConstantLike": VGlobal("ConstantLike")}
+
+    def setup(self, st, inst):
+        ghost_setup(st)
+        st.ghost["TRIED"] = z3.Const("TRIED0", SET)
+        return {"self": VRef(st.declare_input("self", z3.Int("self")), "GreedyRewritePatternApplier"),
+                "op": VRef(st.declare_input("op", z3.Int("op")), "Operation"),
+                "rewriter": VRef(st.declare_input("rewriter", z3.Int("rewriter")), "PatternRewriter")}
+
+    def pre(self, st, a):
+        me, rw = a["self"].z, a["rewriter"].z
+        l = st.sel("rewrite_patterns", me)
+        lists = [st.sel(f, rw) for f in HANDLER_FIELD.values()]
+        return world() + results_ok(st) + [A("objects", z3.And(me > 0, rw > 0, a["op"].z > 0, l > 0, st.list_len(l) >= 0)),
+                                           A("handler-lists-are-objects", z3.And(*[z3.And(x > 0, st.list_len(x) >= 0) for x in lists])),
+                                           A("the-action-flag-is-reset-before-each-match", z3.Not(flag(st, rw)))]
+
+    def inv(self, n, entry, st, a, lv):
+        me, rw = a["self"].z, a["rewriter"].z
+        l = entry.sel("rewrite_patterns", me)
+        j = z3.Int("ap!j")
+        return [A("no-action-so-far", z3.And(z3.Not(flag(st, rw)), G(st, "mut") == G0("mut"), logs_unchanged(entry, st))),
+                A("patterns-so-far-tried", forall([j], z3.Implies(z3.And(j >= 0, j < lv["k"]), G(st, "TRIED")[entry.list_el(l, j)]))),
+                A("pattern-list-unchanged", z3.And(st.sel("rewrite_patterns", me) == l, st.list_len(l) == entry.list_len(l), st.list_arr(l) == entry.list_arr(l)))]
+
+    def post(self, old, st, a, res):
+        me, rw, op = a["self"].z, a["rewriter"].z, a["op"].z
+        l = old.sel("rewrite_patterns", me)
+        j = z3.Int("ap!j")
+        return [C("action-flag-set-whenever-the-IR-was-mutated", z3.Implies(G(st, "mut"), z3.Or(G(old, "mut"), flag(st, rw)))),
+                C("dead-operations-are-erased-through-the-rewriter (removal reported)", z3.Implies(z3.And(old.sel("dce_enabled", me), ITD(op)), z3.And(flag(st, rw), G(st, "rem")[op]))),
+                C("no-action: every pattern of the list was tried on the unchanged IR",
+                  z3.Implies(z3.Not(flag(st, rw)), z3.And(G(st, "mut") == G(old, "mut"),
+                                                         forall([j], z3.Implies(z3.And(j >= 0, j < old.list_len(l)), G(st, "TRIED")[old.list_el(l, j)])))))]
+
+    def post_exc(self, old, st, a, exc):
+        if exc == "ValueError":
+            rw = a["rewriter"].z
+            return [C("action-flag-set-whenever-the-IR-was-mutated", z3.Implies(G(st, "mut"), z3.Or(G(old, "mut"), flag(st, rw))))]
+        return None
+
+
+BUILDER_INSERT = BuilderInsert()
 
 
 def make_specs(tier):
@@ -554,9 +1357,42 @@ def make_specs(tier):
               "erase_block_argument", "inline_block", "move_region_contents_to_new_regions", "inline_region"):
         add(RewriterMethod(m))
     add(RewriterMethod("insert"), [{"single": True}, {"single": False}])
+    add(BUILDER_INSERT, [{"single": True}, {"single": False}])
+    add(ReplaceSpec(), [{"single": s, "given": g} for s in (True, False) for g in (True, False)])
+    add(RUWISpec())
+    add(TrackingCall())
+    for m in ("_handle_operation_insertion", "_handle_operation_modification", "_handle_operation_removal", "_handle_operation_replacement",
+              "_add_operands_to_worklist", "_populate_worklist"):
+        add(WalkerMethod(m))
+    add(ProcessWorklist())
+    add(RewriteRegion())
+    add(Applier())
     return specs
 
 
-NATIVE = []
-ASSUMPTIONS = []
+def _search(self, inst, seed):
+    """Native counter-example search for an undecided / refuted unit: the bounded stand-in (first shard)."""
+    r = N11.explore("quick", seed, 0, 4)
+    return r["failures"][0] if r["failures"] else None
+
+
+NATIVE = N11.NATIVE
+ASSUMPTIONS = [
+    "ASSUMED contract of the opaque call self.pattern.match_and_rewrite(op, rewriter) (class Pattern): patterns change the IR only through the "
+    "rewriter they are given - the hypothesis the statement itself makes ('made through the rewriter'); its clauses are the per-method "
+    "postconditions discharged in this run, closed under sequencing; a pattern that edits the IR behind the rewriter's back is outside the property",
+    "ASSUMED: post_walk_func reports truthfully whether it changed the IR; registered listener callbacks do not edit the handler lists or the worklist",
+    "TRUSTED callee contracts for the IR-mutating primitives (Rewriter.erase_op/insert_op/replace_value_with_new_type/inline_block/"
+    "move_region_contents_to_new_regions/inline_region, Block.insert_arg/erase_arg, SSAValue.erase/replace_all_uses_with/replace_uses_with_if): here "
+    "only THAT they may mutate matters (ghost `mut`); their effect on the IR structure is C01",
+    "replace_all_uses_with / replace_uses_with_if mutate operand lists iff some use is rewritten; the name-hint carry-over they perform is not counted as an IR change",
+    "uses_of(v) / walk_of(op) / in_region_at_epoch are uninterpreted read-only views of the IR at the time of the call (IRUses iteration order, Operation.walk pre-order with the op first)",
+    "_get_rewriter_listener (bound-method lists) and the identity 'the listener handed to the rewriter forwards to the walker callbacks' are covered by the bounded stand-in only",
+    "the Worklist contracts are the Spec objects verified in C12 (push/pop/remove/__bool__); other lists are not framed across Worklist calls",
+    "termination of rewrite_region's outer loop is not proved",
+]
+EXPLANATION = ("C11: rewriter methods, listener dispatch, walker callbacks, worklist processing and the outer fixpoint loop verified function by function "
+               "with ghost logs; the pattern call is an assumed contract; bounded stand-in on generated IR under perturbed schedules")
+for _c in (Dispatch, Extend, RewriterMethod, BuilderInsert, TrackingCall, WalkerMethod, ProcessWorklist, RewriteRegion, Applier):
+    _c.native_search = _search
 SPECS = make_specs(os.environ.get("VERIF_TIER", "quick"))
